@@ -35,6 +35,7 @@ STRUCT = [
     "a = b = 3", "a = (b = 3) + 1", "x[1]", "x[1][2]=3", "x.y.z=3", "x[1:2]", "x[:]", "x[1:]", "f(1)(2)", "[1,2].len", "'a'.len()",
     "if 1 { if 2 { if 3 { 4 } } }", "if 1 {} else {}", "while 0 {}", "i=0; while i<2 {i=i+1; while 0 {}}",
     "dct={}; dct.k = dct['j'] = []", "a=[1,2]; b = a[0] = 5", "a=[1,2,3]; b = a[0:1] = [5]", "x={}; x.a = x.b = 1", "d || [1,2]", "d6 || 1", "1 ?? d",
+    "^st&射击= 1d6+2", "^st&射击 = 1d6", "^st&a: d6 &b=  2d6k1", "^st&力量:弓箭 =\n1d6+2", "^st&射击=  d6 + 力量", "^st &a = 2d6 , &b : d4",
     "^st&射击=1d6+2", "^st&力量:弓箭=1d6+2", "^st&a=d6 &b=2d6k1", "&a = d6 + `x{d4}`; a", "func f(){ 2d6 + d4 }; f()", "func f(){ &q = 3d6; q }; f()",
     "i=0; while i<3 { i=i+1; if i==1 {break}; j=0; while j<2 { j=j+1; if j==1 {break} } }; i", "while 1 { break; while 1 { break } }", "while 1 { while 0 {}; break }",
     "// #EnableDice wod true\n3a8", "1 // c", "1 /* c */ + 2",
@@ -55,6 +56,47 @@ NEGATIVE = [  # malformed dumps: the verifier must reject each, and the model VM
 # a forward jump past the end, and pool-dice state without init, are malformed for the verifier but do not fault in the VM
 NEG_NO_FAULT = {"[ mark.detail=d0,5 push.int=i1 ]", "[ mark.detail=d3,2 push.int=i1 ]", "[ block.push fstr.block.push block.pop ]", "[ jmp=i7 ]", "[ push.int=i1 wod.pool ]", "[ push.int=i1 dc.setPool ]", "[ push.int=i1 dice.wod ]", "[ push.int=i1 jne=i1 fstr.block.push push.int=i2 pop ]",
                 "[ fstr.block.push pop ]", "[ mark.detail=d0,1 push.def_expr ]", "[ push.int=i1 je=N ]"}
+
+
+def dump_bodies(dump, main_text):
+    """[(text bytes, [(b, e), ...])] for the main program and every nested function / computed-value body of a bytecode dump"""
+    toks = dump.split()
+    out = []
+
+    def body(i, text):
+        # toks[i] == "[" ; returns index after the matching "]"
+        spans = []
+        out.append((text, spans))
+        i += 1
+        while i < len(toks) and toks[i] != "]":
+            t = toks[i]
+            if t.startswith("mark.detail=d"):
+                try:
+                    b, e = t[len("mark.detail=d"):].split(",")
+                    spans.append((int(b), int(e)))
+                except ValueError:
+                    pass
+                i += 1
+            elif t.endswith("=C(") or t.endswith("=F("):
+                j = i + 1
+                hdr = []
+                while j < len(toks) and toks[j] != "[":
+                    hdr.append(toks[j])
+                    j += 1
+                try:
+                    btext = bytes.fromhex(hdr[-1]) if hdr and hdr[-1] != "-" else b""
+                except ValueError:
+                    btext = b""
+                i = body(j, btext)
+                if i < len(toks) and toks[i] == ")":
+                    i += 1
+            else:
+                i += 1
+        return i + 1
+
+    if toks and toks[0] == "[":
+        body(0, main_text)
+    return out
 
 
 def main(tier):
@@ -132,6 +174,25 @@ def main(tier):
                 run.known_finding("C03-emit-then-fail-leak", rep)
             else:
                 run.violation("malformed-bytecode:" + reason.split(": ")[-1], rep)
+        # ---- (a2) every annotation span must cover exactly one term of the text its body was compiled from: the span's text,
+        #      parsed alone, is consumed entirely (a span shifted by a blank or cut short is "annotation state nobody set up":
+        #      the VM slices its text with these numbers)
+        span_jobs = []
+        for src, cfg, kind, off, dump in verified:
+            for text, spans in dump_bodies(dump, src[:off]):
+                for b, e in spans:
+                    if 0 <= b < e <= len(text):
+                        span_jobs.append((src, cfg, dump, text, b, e))
+        span_jobs = span_jobs[: (6000 if tier == "thorough" else 1500)]
+        sp_out = go_child().run([f"pegtrace {cfg if cfg != '-' else ''}{',' if cfg != '-' else ''}wcfd {hx(text[b:e])}" for src, cfg, dump, text, b, e in span_jobs])
+        for (src, cfg, dump, text, b, e), o in zip(span_jobs, sp_out):
+            run.evaluations += 1
+            run.count("span.checked")
+            f = o.split()
+            if not (len(f) >= 2 and f[0] == "ok" and int(f[1]) == e - b):
+                run.violation("malformed-bytecode:annotation span does not cover one whole term of its body's text",
+                              {"source": src.decode("utf-8", "replace"), "cfg": cfg, "body_text": text.decode("utf-8", "replace"), "span": [b, e],
+                               "span_text": text[b:e].decode("utf-8", "replace"), "parse_of_span_text_alone": o[:120], "dump": dump[:500]})
         st = run.streams.setdefault("verify", {"cases": 0, "agree": 0})
         st["cases"] += len(acc)
         st["agree"] += len(verified)
